@@ -230,10 +230,18 @@ func (c *Client) write(ctx context.Context, ev string, obj client.Object, dry bo
 	}
 	if fault == "before" {
 		pr := c.proj(st.Snapshot(k))
+		if args == nil {
+			args = map[string]any{}
+		}
+		args["lost"] = false
 		c.emit(p, ev, k, dry, errInjected, pr, pr, args)
 		return errInjected
 	}
 	if kerr != nil {
+		if args == nil {
+			args = map[string]any{}
+		}
+		args["lost"] = false
 		c.emit(p, ev, k, dry, kerr, Proj{}, Proj{}, args)
 		return kerr
 	}
@@ -249,6 +257,7 @@ func (c *Client) write(ctx context.Context, ev string, obj client.Object, dry bo
 	if args == nil {
 		args = map[string]any{}
 	}
+	args["lost"] = false
 	if fault == "after" {
 		args["lost"] = true
 		c.emit(p, ev, k, dry, errInjected, prep, postp, args)
@@ -446,7 +455,8 @@ func (w statusWriter) Update(ctx context.Context, obj client.Object, opts ...cli
 	if err != nil {
 		return err
 	}
-	return w.c.write(ctx, "StatusUpdate", obj, false, map[string]any{"body": w.c.proj(body)},
+	bp := w.c.proj(body)
+	return w.c.write(ctx, "StatusUpdate", obj, false, map[string]any{"body": bp, "failedPhase": failedPhase(bp)},
 		func(st *Store, k Key, ki KindInfo) (map[string]any, error) { return st.statusUpdate(k, ki, body, false) })
 }
 
@@ -480,4 +490,18 @@ func (c *Client) IsObjectNamespaced(obj runtime.Object) (bool, error) {
 		return false, &meta.NoKindMatchError{GroupKind: gvk.GroupKind()}
 	}
 	return ki.Namespaced, nil
+}
+
+// failedPhase extracts the phase named by an Available=False/ProbeFailure condition message
+// (`Phase "name" failed: ...`), "" otherwise.
+func failedPhase(p Proj) string {
+	for _, c := range p.CR.Conds {
+		if c.Type == "Available" && c.Reason == "ProbeFailure" {
+			var name string
+			if _, err := fmt.Sscanf(c.Msg, "Phase %q failed:", &name); err == nil {
+				return name
+			}
+		}
+	}
+	return ""
 }
